@@ -569,8 +569,23 @@ def norm_text(node):
     return s[:160]
 
 
+_WALK_CACHE = {}
+
+
 def walk_no_nested(node):
-    """ast.walk that does not descend into nested function/class/lambda bodies."""
+    """ast.walk that does not descend into nested function/class/lambda bodies.  Walks of whole function / class / module
+    nodes (the persistent parse trees) are memoised; the cache keeps the node alive, so an id is never reused."""
+    if isinstance(node, (ast.FunctionDef, ast.AsyncFunctionDef, ast.ClassDef, ast.Module)):
+        hit = _WALK_CACHE.get(id(node))
+        if hit is not None and hit[0] is node:
+            return iter(hit[1])
+        out = list(_walk_no_nested(node))
+        _WALK_CACHE[id(node)] = (node, out)
+        return iter(out)
+    return _walk_no_nested(node)
+
+
+def _walk_no_nested(node):
     todo = [node]
     first = True
     while todo:
